@@ -579,6 +579,7 @@ CANDIDATES = {
 # documented-grammar texts the parser rejects (found by the acceptance proof, Lemmas/DocAcceptFindings.lean)
 CANDIDATES["F34"] = ["2024/01/01\n *\n", "2024/01/01\n !\n", "2024/01/01\n A;  1 (\n)\n"]
 CANDIDATES["F35"] = ["apply tag \x0c\n"]
+CANDIDATES["F37"] = ["2024/01/01 x\n \u3000!Expenses:A  1 USD\n    B\n", "2024/01/01 x\n\t\u00a0*A:b  = 0\n"]
 CANDIDATES["F36"] = ["2024/01/01 (\naccount X)\n note c  d\n"]
 
 # round trip changes the tree (F28): an account made only of Unicode white space is trimmed to the empty string
@@ -598,12 +599,19 @@ _F28_A = "(?:" + _WS_OTHER_RE + "| (?! ))"
 _F28_LINE = re.compile(r"(?m)^[ \t]+" + _F28_A + "*" + _WS_OTHER_RE + _F28_A + r"*(?:  |\t|;| ?\r?$)")
 
 
+# F37: an account that starts with such white space directly followed by a clear-state character
+_F37_POST = re.compile(r"\(post %2[1A]")
+_F37_LINE = re.compile(r"(?m)^[ \t]+" + _F28_A + "*" + _WS_OTHER_RE + _F28_A + r"*[*!]")
+
+
 def defect_class(rec, text=None):
     """decidable class predicates of the recorded round-trip defects: the symptom in the parsed tree AND its recorded
     cause in the text (a white-space character other than blank/tab right where the finding says), so that a different
     defect with the same symptom is still reported"""
     if "(post ~ " in rec and (text is None or _F28_LINE.search(text)):
         return "F28"
+    if _F37_POST.search(rec) and (text is None or _F37_LINE.search(text)):
+        return "F37"
     for m in _COMMENT_ATOM.finditer(rec):
         c = dec(m.group(1))
         if _TAGWORDS.match(c):
@@ -683,6 +691,42 @@ def hx(args, lines):
 
 def drv(args, lines):
     return run_sharded(DRV, ["c05"] + args, lines, shards=8)
+
+
+def roundtrip_ok(texts):
+    """oracles (b), (c) on the real code for a batch of texts: parse(format t) == parse t and format(format t) == format t
+    (True also when the text does not parse)"""
+    lines = [enc(t) for t in texts]
+    p1 = hx(["parse"], lines)
+    f1 = [fmt_out(r) for r in hx(["fmt"], lines)]
+    idx = [i for i, t in enumerate(f1) if t is not None]
+    l2 = [enc(f1[i]) for i in idx]
+    p2 = dict(zip(idx, hx(["parse"], l2)))
+    f2 = dict(zip(idx, hx(["fmt"], l2)))
+    out = []
+    for i in range(len(texts)):
+        _items, tail = split_record(p1[i])
+        if tail != "done":
+            out.append(True)
+            continue
+        if f1[i] is None:
+            out.append(False)
+            continue
+        m1, _ = meaning(p1[i])
+        m2, t2 = meaning(p2[i])
+        out.append(t2 == "done" and m1 == m2 and fmt_out(f2[i]) == f1[i])
+    return out
+
+
+_WS_OTHER_ANY = None
+
+
+def neutralise_ws(t):
+    """the text with every white-space character the parser does not treat as a blank replaced by a letter"""
+    global _WS_OTHER_ANY
+    if _WS_OTHER_ANY is None:
+        _WS_OTHER_ANY = re.compile(_WS_OTHER_RE)
+    return _WS_OTHER_ANY.sub("x", t)
 
 
 def run(chk):
@@ -787,6 +831,7 @@ def run(chk):
     for fid in sorted(set(unrecorded)):
         chk.count("unrecorded_candidate:" + fid)
     seen_known = set()
+    deferred = []
 
     for i, (kind, t, feats) in enumerate(cases):
         items, tail = split_record(iparse[i])
@@ -854,6 +899,10 @@ def run(chk):
                     chk.known_finding(fid, "%s: %r" % (fails[0][0], t))
             elif fid and st is None:
                 chk.count("unrecorded-candidate-reproduces:" + fid)
+            elif accepted and neutralise_ws(t) != t and all(f[0].startswith(("formatting changes", "format is not idempotent")) for f in fails):
+                # a round-trip failure on a text that holds white space the parser does not treat as blank: the cause is
+                # tested below (the same text with those characters replaced by letters must round-trip)
+                deferred.append((t, fails, base))
             else:
                 for summary, extra in fails:
                     chk.oracle_failures += 1
@@ -869,12 +918,36 @@ def run(chk):
             chk.disagreements += 1
             chk.violation("printer model and okane format disagree; the property's oracles hold on this input",
                           dict(base, stream="c05 fmt", impl=ifmt[i], model=mfmt[i]), no_failing_input=True, tag="corr")
-        elif accepted and mwf[i] != "wf" and kind in ("grammar", "corpus"):
+        elif accepted and mwf[i] != "wf" and kind in ("grammar", "corpus") and neutralise_ws(t) == t:
+            # (theorem C05_image: for texts whose only white space is blank, tab, LF, CR)
             chk.disagreements += 1
             chk.violation("image property fails on the model: a parsed tree does not satisfy wfEntry (%s)" % mwf[i],
                           dict(base, stream="c05 wf", model=mwf[i], parse=iparse[i]), no_failing_input=True, tag="corr")
         if accepted:
             chk.count("wf:" + mwf[i].split(" ")[0])
+    # ---- deferred round-trip failures on texts with white space the parser does not treat as blank (the class of the
+    # known findings F27 / F28 / F37, = outside the hypothesis asciiSpaceOnly of theorem C05_roundtrip_text): the failure is
+    # attributed to that class only if the SAME text with those characters replaced by letters round-trips on the real
+    # code; otherwise it is a different violation and is reported
+    if deferred:
+        oks = roundtrip_ok([neutralise_ws(t) for t, _f, _b in deferred])
+        for (t, fails, base), ok in zip(deferred, oks):
+            if ok:
+                chk.count("known-family:unicode-white-space (F27/F28/F37), cause confirmed by substitution")
+                if "unicode-ws-family" not in seen_known:
+                    seen_known.add("unicode-ws-family")
+                    fam = [f for f in ("F28", "F27", "F37") if all_findings.get(f, {}).get("status") == "known"]
+                    if fam:
+                        chk.known_finding(fam[0], "another member of the Unicode-white-space family (%s; round trip restored when the "
+                                          "characters are replaced by letters): %s: %r" % ("/".join(fam), fails[0][0], t[:200]))
+                    else:
+                        for summary, extra in fails:
+                            chk.oracle_failures += 1
+                            chk.violation(summary, dict(base, **extra))
+            else:
+                for summary, extra in fails:
+                    chk.oracle_failures += 1
+                    chk.violation(summary, dict(base, **extra, note="persists with every non-blank white-space character replaced by a letter"))
     if unrecorded:
         chk.sample({"unrecorded_candidates": sorted(set(unrecorded)),
                     "note": "documented-grammar texts rejected by the current tree, reported to the lead "
